@@ -225,7 +225,7 @@ def index_cases(draw, rw, max_dims=4, max_len=3):
 
 class Read(Facet):
     name = "read"
-    examples = {"quick": 8000, "thorough": 150000}
+    examples = {"quick": 8000, "thorough": 450000}
     shards = {"quick": 8, "thorough": 16}
 
     def strategy(self, tier):
@@ -237,7 +237,7 @@ class Read(Facet):
 
 class Write(Facet):
     name = "write"
-    examples = {"quick": 8000, "thorough": 150000}
+    examples = {"quick": 8000, "thorough": 450000}
     shards = {"quick": 8, "thorough": 16}
 
     def strategy(self, tier):
@@ -363,7 +363,7 @@ def run_error(desc):
 
 class Errors(Facet):
     name = "errors"
-    examples = {"quick": 1500, "thorough": 20000}
+    examples = {"quick": 1500, "thorough": 60000}
     shards = {"quick": 4, "thorough": 16}
 
     def strategy(self, tier):
@@ -415,7 +415,7 @@ def run_lookup(desc):
 
 class Lookup(Facet):
     name = "lookup"
-    examples = {"quick": 2000, "thorough": 30000}
+    examples = {"quick": 2000, "thorough": 90000}
     shards = {"quick": 4, "thorough": 16}
 
     def strategy(self, tier):
